@@ -8,33 +8,25 @@
     the cache is Model/Cache.v, the registration order of the primes is Model/Registry.v's reference
     map.  Definitions only; proofs live in Proofs/CorsProofs.v. *)
 From KV Require Import Registry.
+From KV Require PathSan.
 From KV Require Export Bytes RustInt Range CacheControl Cache Fixture RuleSet.
 Open Scope N_scope.
 
-(** ---- methods ([http::Method] is an abstract type with equality; here a number) ---- *)
-Definition M_PUT : N := 4. Definition M_DELETE : N := 5. Definition M_PATCH : N := 6.
-Definition cors_method_of_bytes (m : bytes) : option N :=
-  if beq m (B "GET") then Some M_GET else if beq m (B "HEAD") then Some M_HEAD
-  else if beq m (B "POST") then Some M_POST else if beq m (B "OPTIONS") then Some M_OPTIONS
-  else if beq m (B "PUT") then Some M_PUT else if beq m (B "DELETE") then Some M_DELETE
-  else if beq m (B "PATCH") then Some M_PATCH else None.
-Definition cors_method_name (m : N) : bytes :=
-  if m =? M_GET then B "GET" else if m =? M_HEAD then B "HEAD" else if m =? M_POST then B "POST"
-  else if m =? M_OPTIONS then B "OPTIONS" else if m =? M_PUT then B "PUT"
-  else if m =? M_DELETE then B "DELETE" else B "PATCH".
-
-(** ---- stand-in for [http::Uri::try_from(&[u8])] (http 1.5.0: uri/mod.rs [from_shared], [parse_full],
-    scheme.rs [Scheme2::parse], authority.rs [validate_authority_bytes], [host], [port]) on the grammar
-    [scheme "://" host [":" port] ["/" ...]]  |  [host [":" port]]  |  a string with a byte that is no
-    URI character.  Userinfo, brackets, percent signs and sub-delimiters are outside the grammar
-    (rejected here; such inputs are counted as out-of-domain by the correspondence). ---- *)
+(** ---- transcription of [http::Uri::try_from(&[u8])] (http 1.5.0: uri/mod.rs [from_shared], [parse_full],
+    scheme.rs [Scheme2::parse], authority.rs [validate_authority_bytes], [host], [port], path.rs
+    [scan_path_and_query]) with [Uri::scheme_str], [Uri::host], [Uri::port_u16]; not transcribed: the
+    length limit (65534 bytes).  The theorems hold for every parser; this one is what the correspondence
+    runs, and it is itself compared with the real parser (component "cors.parse"). ---- *)
 Record uparts := mkU { u_scheme : option bytes; u_host : option bytes; u_port : option N }.
 
 Definition is_alpha (c : N) : bool := ((65 <=? c) && (c <=? 90)) || ((97 <=? c) && (c <=? 122)).
 Definition is_alnum (c : N) : bool := is_alpha c || is_digit c.
 Definition scheme_char (c : N) : bool := is_alnum c || (c =? 43) || (c =? 45) || (c =? 46).
-Definition host_char (c : N) : bool := is_alnum c || (c =? 45) || (c =? 46) || (c =? 95) || (c =? 126).
 Definition c_colon : N := 58. Definition c_slash : N := 47.
+(** [URI_CHARS[c] != 0] *)
+Definition uri_char (c : N) : bool :=
+  (c =? 33) || (c =? 35) || (c =? 36) || ((38 <=? c) && (c <=? 59)) || (c =? 61) || ((63 <=? c) && (c <=? 91))
+  || (c =? 93) || (c =? 95) || ((97 <=? c) && (c <=? 122)) || (c =? 126).
 
 (** the scan of [Scheme2::parse]: [Some i] = a ':' at [i] followed by "//" *)
 Fixpoint scan_scheme (s : bytes) (i : nat) : option nat :=
@@ -55,40 +47,88 @@ Definition parse_scheme (s : bytes) : scheme2 :=
     end
   else SchNone.
 
-(** [validate_authority_bytes]: end of the authority (first '/', '?', '#') and number of colons *)
-Fixpoint auth_scan (s : bytes) (i colons : nat) : option (nat * nat) :=
+(** [validate_authority_bytes]: the loop's variables *)
+Record ast := mkAst { a_colons : nat; a_sb : bool; a_eb : bool; a_pct : bool; a_at : option nat }.
+Fixpoint auth_scan (s : bytes) (i : nat) (st : ast) : option (nat * ast) :=
   match s with
-  | [] => Some (i, colons)
+  | [] => Some (i, st)
   | c :: r =>
-      if (c =? c_slash) || (c =? 63) || (c =? 35) then Some (i, colons)
-      else if c =? c_colon then auth_scan r (S i) (S colons)
-      else if host_char c then auth_scan r (S i) colons
-      else None
+      if (c =? c_slash) || (c =? 63) || (c =? 35) then Some (i, st)
+      else if negb (uri_char c) then
+        (if c =? 37 then auth_scan r (S i) (mkAst (a_colons st) (a_sb st) (a_eb st) true (a_at st)) else None)
+      else if c =? c_colon then
+        (if Nat.leb 8 (a_colons st) then None else auth_scan r (S i) (mkAst (S (a_colons st)) (a_sb st) (a_eb st) (a_pct st) (a_at st)))
+      else if c =? 91 then
+        (if a_pct st || a_sb st then None else auth_scan r (S i) (mkAst (a_colons st) true (a_eb st) (a_pct st) (a_at st)))
+      else if c =? 93 then
+        (if negb (a_sb st) || a_eb st then None else auth_scan r (S i) (mkAst O (a_sb st) true false (a_at st)))
+      else if c =? 64 then auth_scan r (S i) (mkAst O (a_sb st) (a_eb st) false (Some i))
+      else auth_scan r (S i) st
   end.
 Definition parse_authority (s : bytes) : option nat :=
   match s with
   | [] => None
-  | _ => match auth_scan s O O with
-         | Some (e, colons) => if Nat.ltb 1 colons then None else Some e
+  | _ => match auth_scan s O (mkAst O false false false None) with
+         | Some (e, st) =>
+             if negb (Bool.eqb (a_sb st) (a_eb st)) then None
+             else if Nat.ltb 1 (a_colons st) then None
+             else if Nat.ltb 0 e && (match a_at st with Some p => Nat.eqb p (e - 1) | None => false end) then None
+             else if a_pct st then None
+             else Some e
          | None => None
          end
   end.
+(** [authority::host]: after the last '@'; a bracketed literal up to its ']', else up to the first ':' *)
+Fixpoint after_last_at (s : bytes) : bytes :=
+  match s with
+  | [] => []
+  | c :: r => if mem_byte 64 r then after_last_at r else if c =? 64 then r else s
+  end.
 Definition auth_host (a : bytes) : bytes :=
-  match find_byte c_colon a with Some i => firstn i a | None => a end.
+  let hp := after_last_at a in
+  match hp with
+  | c :: _ =>
+      if c =? 91 then match find_byte 93 hp with Some i => firstn (S i) hp | None => hp end
+      else match find_byte c_colon hp with Some i => firstn i hp | None => hp end
+  | [] => []
+  end.
+(** [Authority::port]: [rfind(':')] in the whole authority, the rest parsed as [u16] *)
+Definition rfind_byte (c : N) (s : bytes) : option nat :=
+  match find_byte c (rev s) with Some j => Some (length s - 1 - j)%nat | None => None end.
 Definition auth_port (a : bytes) : option N :=
-  match find_byte c_colon a with Some i => parse_uint 65535 (skipn (S i) a) | None => None end.
+  match rfind_byte c_colon a with Some i => parse_uint 65535 (skipn (S i) a) | None => None end.
+
+(** [scan_path_and_query] + the UTF-8 test of [PathAndQuery::from_shared]: the text starts with '/', '?' or '#' *)
+Definition path_class_valid (c : N) : bool :=
+  (c =? 33) || ((36 <=? c) && (c <=? 59)) || (c =? 61) || ((64 <=? c) && (c <=? 95)) || ((97 <=? c) && (c <=? 122))
+  || (c =? 124) || (c =? 126) || (c =? 34) || (c =? 123) || (c =? 125).
+Definition query_class_valid (c : N) : bool :=
+  (c =? 33) || ((36 <=? c) && (c <=? 59)) || (c =? 61) || ((63 <=? c) && (c <=? 126)).
+Fixpoint pq_scan (inq : bool) (s : bytes) : option bytes :=      (* the text kept: up to a '#' *)
+  match s with
+  | [] => Some []
+  | c :: r =>
+      if c =? 35 then Some []
+      else if negb inq && (c =? 63) then option_map (cons c) (pq_scan true r)
+      else if (if inq then query_class_valid c else path_class_valid c) || (128 <=? c) then option_map (cons c) (pq_scan inq r)
+      else None
+  end.
+Definition pq_ok (s : bytes) : bool :=
+  match pq_scan false s with Some k => PathSan.utf8_valid k | None => false end.
 
 Definition parse_uri (s : bytes) : option uparts :=
   match s with
   | [] => None
   | c :: r =>
-      if (c =? c_slash) then Some (mkU None None None)
+      if (c =? c_slash) then (if pq_ok s then Some (mkU None None None) else None)
       else if (c =? 42) && Nat.eqb (length r) 0 then Some (mkU None None None)
       else
         let full (sch rest : bytes) :=
           match parse_authority rest with
           | Some e => if Nat.eqb e 0 then None
-                      else let a := firstn e rest in Some (mkU (Some sch) (Some (auth_host a)) (auth_port a))
+                      else let a := firstn e rest in
+                           if Nat.eqb e (length rest) || pq_ok (skipn e rest)
+                           then Some (mkU (Some sch) (Some (auth_host a)) (auth_port a)) else None
           | None => None
           end in
         match parse_scheme s with
@@ -102,6 +142,32 @@ Definition parse_uri (s : bytes) : option uparts :=
         | SchOther n => full (firstn n s) (skipn (n + 3) s)
         end
   end.
+
+(** ---- methods ([http::Method] is an abstract type with equality; here a number: the seven
+    standard methods the generator uses are 0..6, any other method token (an extension method such as
+    [COPY], [TRACE], [GETX] or [get]: [Method::from_bytes] is case sensitive) is [M_EXT] + its bytes
+    read as a base-256 number behind a leading 1) ---- *)
+Definition M_PUT : N := 4. Definition M_DELETE : N := 5. Definition M_PATCH : N := 6.
+Definition M_EXT : N := 1000.
+Definition method_char (c : N) : bool := is_alnum c || (c =? 45).
+Fixpoint n_of_bytes (acc : N) (s : bytes) : N :=
+  match s with [] => acc | c :: r => n_of_bytes (acc * 256 + c) r end.
+Fixpoint bytes_of_n (fuel : nat) (n : N) (acc : bytes) : bytes :=
+  match fuel with
+  | O => acc
+  | S f => if n <=? 1 then acc else bytes_of_n f (n / 256) ((n mod 256) :: acc)
+  end.
+Definition cors_method_of_bytes (m : bytes) : option N :=
+  if beq m (B "GET") then Some M_GET else if beq m (B "HEAD") then Some M_HEAD
+  else if beq m (B "POST") then Some M_POST else if beq m (B "OPTIONS") then Some M_OPTIONS
+  else if beq m (B "PUT") then Some M_PUT else if beq m (B "DELETE") then Some M_DELETE
+  else if beq m (B "PATCH") then Some M_PATCH
+  else if Nat.ltb 0 (length m) && Nat.leb (length m) 16 && forallb method_char m then Some (M_EXT + n_of_bytes 1 m)
+  else None.
+Definition cors_method_name (m : N) : bytes :=
+  if m =? M_GET then B "GET" else if m =? M_HEAD then B "HEAD" else if m =? M_POST then B "POST"
+  else if m =? M_OPTIONS then B "OPTIONS" else if m =? M_PUT then B "PUT"
+  else if m =? M_DELETE then B "DELETE" else if M_EXT <=? m then bytes_of_n 20 (m - M_EXT) [] else B "PATCH".
 
 (** ---- [Cors::is_part_of_origin] ---- *)
 Definition opt_beq (a c : option bytes) : bool :=
@@ -177,13 +243,27 @@ Definition al_check (al : allow_list) (origin : uparts) : option grant :=
 Definition method_allowed (ms : option (list N)) (m : N) : bool :=
   match ms with None => true | Some l => mem_N m l end.
 
+(** ---- [Cors::resolved_path]: the path the file system resolves a request path to — percent-decoded
+    ([kvarn_utils::percent_decode]: the text itself when the decoded bytes are not UTF-8) and without
+    repeated '/' ---- *)
+Fixpoint collapse_slashes (s : bytes) (prev_slash : bool) : bytes :=
+  match s with
+  | [] => []
+  | c :: r => if (c =? c_slash) && prev_slash then collapse_slashes r true else c :: collapse_slashes r (c =? c_slash)
+  end.
+Definition resolved_path (p : bytes) : bytes := collapse_slashes (PathSan.util_percent_decode p) false.
+(** as it was: the rule was looked up with the path as spelled in the request only *)
+Definition resolved_path_v0 (p : bytes) : bytes := p.
+
 (** ---- [Cors::check_cors_request] ---- *)
 Definition same_origin_grant : grant := (None, [], 604800000).
 Section Check.
   Variable parse : bytes -> option uparts.          (* [Uri::try_from] *)
   Variable ipo : bytes -> option bytes -> option bytes -> bool.   (* [is_part_of_origin] (repaired or v0) *)
+  Variable norm : bytes -> bytes.                    (* [resolved_path] (repaired or v0) *)
   Variable get : bytes -> option allow_list.        (* [RuleSet::get] *)
 
+  (** [path]: the path of [extensions::RequestedUri] if a Prime extension rewrote the URI, else of the URI *)
   Definition check_cors_request (m : N) (uri_scheme uri_authority : option bytes) (path : bytes)
              (origin : option bytes) : option grant :=
     match origin with
@@ -193,10 +273,14 @@ Section Check.
         else
           match parse o with
           | Some ou =>
-              match (match get path with Some cal => al_check cal ou | None => None end) with
-              | Some allowed => if method_allowed (fst (fst allowed)) m then Some allowed else None
-              | None => None
-              end
+              let check := fun p : bytes =>
+                match (match get p with Some cal => al_check cal ou | None => None end) with
+                | Some allowed => if method_allowed (fst (fst allowed)) m then Some allowed else None
+                | None => None
+                end in
+              let resolved := norm path in
+              if negb (beq resolved path) && (match check resolved with Some _ => false | None => true end) then None
+              else check path
           | None => None
           end
     end.
@@ -224,6 +308,38 @@ Definition cors_spec (parse : bytes -> option uparts) (lookup : bytes -> option 
            end
   end.
 
+(** ... and with the two spellings of a path: a request is let through when it is allowed for the path as
+    requested and for the path the file system resolves it to; what a preflight reports is the rule of
+    the requested path *)
+Definition cors_spec2 (norm : bytes -> bytes) (parse : bytes -> option uparts) (lookup : bytes -> option allow_list)
+           (m : N) (scheme authority path : bytes) (origin : option bytes) : verdict :=
+  match cors_spec parse lookup m scheme authority path origin with
+  | VAllow g =>
+      if beq (norm path) path then VAllow g
+      else match cors_spec parse lookup m scheme authority (norm path) origin with VRefuse => VRefuse | _ => VAllow g end
+  | v => v
+  end.
+
+(** ---- the file system of a host, as far as a request can see it: the files below the public directory
+    by relative path; [fs_find] = what [get_response] / [handle_request] / [read_file] find for a request
+    path: the file is named by the percent-decoded path ([None]: not UTF-8, no path at all) without its
+    leading '/', the operating system ignores repeated '/' and no name contains a NUL ---- *)
+Fixpoint find_file (rel : bytes) (files : list (bytes * bytes)) : option (bytes * bytes) :=
+  match files with
+  | [] => None
+  | (p, c) :: r => if beq p rel then Some (p, c) else find_file rel r
+  end.
+Definition fs_find (files : list (bytes * bytes)) (p : bytes) : option (bytes * bytes) :=
+  match PathSan.decoded_for_use p with
+  | None => None
+  | Some d =>
+      if mem_byte 0 d then None
+      else match collapse_slashes d false with
+           | c :: rel => if c =? c_slash then find_file rel files else None
+           | [] => None
+           end
+  end.
+
 (** ---- preflight response ([options_prepare]) ---- *)
 Fixpoint join_comma (l : list bytes) : bytes :=
   match l with
@@ -240,14 +356,17 @@ Definition H_ACAM := B "access-control-allow-methods".
 Definition H_ACAH := B "access-control-allow-headers".
 Definition H_ACMA := B "access-control-max-age".
 Definition DENIED : bytes := B "CORS request denied".
-Definition denied_fat : fat := mkFat 403 [] DENIED SP_FULL true.
-Definition options_fat (allowed : option grant) : fat :=
+(** the refusal; its server cache preference is [None] after the repair, was [Full] *)
+Definition denied_fat_sp (sp : N) : fat := mkFat 403 [] DENIED sp true.
+Definition denied_fat : fat := denied_fat_sp SP_NONE.
+Definition options_fat_sp (sp : N) (allowed : option grant) : fat :=
   match allowed with
-  | None => denied_fat
+  | None => denied_fat_sp sp
   | Some (methods, headers, cache_ms) =>
       mkFat 204 [(H_ACAM, methods_bytes methods); (H_ACAH, join_comma headers); (H_ACMA, dec (max_age_secs cache_ms))]
             [] SP_NONE true
   end.
+Definition options_fat := options_fat_sp SP_NONE.
 
 (** ---- the host's extensions ---- *)
 Inductive prime_id := P_deny | P_with_cors | P_options | P_uri_redirect.
@@ -273,9 +392,10 @@ Definition H_ORIGIN := B "origin".
 Definition H_HOST := B "host".
 Definition H_ACRM := B "access-control-request-method".
 
-(** the application's Prepare extensions bound to a path ([prepare_single]): key (the override URI's path,
-    else the request's path) and request to response + invocation log; [None] = nothing mounted there.
-    The marker handlers of the correspondence (harness/src/c13.rs): a later one for the same path wins. *)
+(** the application's request handlers: Prepare extensions bound to a path ([prepare_single], looked up with
+    the override URI's path, else the request's path), Prepare extensions bound to a predicate
+    ([prepare_fn]) and the files of the host ([handle_request]); key and request to response + invocation
+    log; [None] = nothing there (404).  Arbitrary in the theorems; in the correspondence [site_app]. *)
 Definition app_handlers := bytes -> request -> option (fat * list bytes).
 Fixpoint find_marker (p : bytes) (hs : list (bytes * N)) (i : nat) (acc : option (nat * N)) : option (nat * N) :=
   match hs with
@@ -288,20 +408,84 @@ Definition marker_app (hs : list (bytes * N)) : app_handlers := fun key r =>
   | None => None
   end.
 
+(** the site of harness/src/c13.rs: marker [prepare_single] handlers (a later one for the same path wins),
+    then marker [prepare_fn] handlers (predicate: the raw request path starts with the prefix; the first in
+    the list has the highest priority), then the files (GET and HEAD only, else 405); with [own_acao] every
+    marker handler sets its own [access-control-allow-origin: *] *)
+Record site := mkSite { st_files : list (bytes * bytes); st_fns : list (bytes * N); st_flags : N }.
+Definition flag (n : N) (fl : N) : bool := N.testbit fl n.
+Definition site_own_acao (s : option site) : bool := match s with Some st => flag 1 (st_flags st) | None => false end.
+Definition site_filter_all (s : option site) : bool := match s with Some st => flag 0 (st_flags st) | None => false end.
+Definition site_marks (s : option site) : bool := match s with Some st => flag 2 (st_flags st) | None => false end.
+(** the port is secure (flag 8; with flag 16 the client speaks HTTP/2): the scheme of the request URI is "https" *)
+Definition site_scheme (s : option site) : bytes :=
+  if (match s with Some st => flag 3 (st_flags st) | None => false end) then B "https" else B "http".
+Fixpoint find_fn (p : bytes) (fns : list (bytes * N)) (i : nat) : option (nat * N) :=
+  match fns with
+  | [] => None
+  | (pre, sp) :: r => if starts_with pre p then Some (i, sp) else find_fn p r (S i)
+  end.
+Definition marker_fat (tag : bytes) (i : nat) (sp : N) (own : bool) (r : request) : fat * list bytes :=
+  (mkFat 200 (if own then [(B "access-control-allow-origin", B "*")] else [])
+         (tag ++ dec (N.of_nat i) ++ B ":" ++ rq_path r) sp true, [tag ++ dec (N.of_nat i)]).
+Definition site_app (hs : list (bytes * N)) (s : option site) : app_handlers := fun key r =>
+  if starts_with (B "/./") key then None
+  else
+    match find_marker key hs O None with
+    | Some (i, sp) => Some (marker_fat (B "h") i sp (site_own_acao s) r)
+    | None =>
+        match s with
+        | None => None
+        | Some st =>
+            match find_fn (rq_path r) (st_fns st) O with
+            | Some (i, sp) => Some (marker_fat (B "f") i sp (site_own_acao s) r)
+            | None =>
+                match PathSan.decoded_for_use (rq_path r) with
+                | None => None                                    (* "Invalid percent encoding in path": no file path *)
+                | Some _ =>
+                    if get_or_head (rq_method r) then
+                      match fs_find (st_files st) (rq_path r) with
+                      | Some (_, content) => Some (mkFat 200 [] content SP_FULL true, [])
+                      | None => None
+                      end
+                    else Some (error_fat 405 SP_FULL, [])
+                end
+            end
+        end
+    end.
+
+(** [sanitize_request] with percent escapes: the path test of Model/PathSan.v on the decoded path *)
+Definition sanitize_ok_pct (r : request) : bool :=
+  (match PathSan.sanitize_path (rq_path r) with Ok _ => true | _ => false end) && range_part_ok r.
+
+(** [handle_cache]'s admission with [host.options.status_code_cache_filter] = [filt] ([true] = drop) *)
+Definition wants_cache_f (filt : N -> bool) (cache_on : bool) (m : N) (f : fat) : bool :=
+  cache_on && pref_caches (f_spref f) && negb (filt (f_status f)) && get_or_head m.
+Definition may_store_f (filt : N -> bool) (cache_on : bool) (m : N) (f : fat) : bool :=
+  wants_cache_f filt cache_on m f && (N.of_nat (length (f_body f)) <? size_limit) && negb (kvarn_none f).
+
 Section Pipe.
   Variable parse : bytes -> option uparts.
   Variable ipo : bytes -> option bytes -> option bytes -> bool.
+  Variable norm : bytes -> bytes.        (* [resolved_path], or the identity before the repair *)
+  Variable keep_orig : bool.             (* [resolve_prime] keeps the requested URI ([RequestedUri]); false before the repair *)
+  Variable denied_sp : N.                (* server cache preference of the refusal: [SP_NONE], [SP_FULL] before the repair *)
+  Variable filt : N -> bool.             (* [host.options.status_code_cache_filter]: [true] = drop *)
   Variable conn_scheme : bytes.          (* "http" on a [PortDescriptor::unsecure], "https" with TLS *)
   Variable cfg : ccfg.
-  Variable app : app_handlers.           (* arbitrary in the theorems; [marker_app (cc_handlers cfg)] in the run *)
+  Variable app : app_handlers.           (* arbitrary in the theorems; [site_app ...] in the run *)
 
-  (** the request URI of an HTTP/1 request is [scheme "://" Host-header target] (kvarn_async::read::request) *)
-  Definition req_check (rules : ruleset allow_list) (r : request) : option grant :=
-    check_cors_request parse ipo (rs_get rules) (rq_method r) (Some conn_scheme) (header H_HOST r)
-                       (rq_path r) (header H_ORIGIN r).
+  (** the request URI of an HTTP/1 request is [scheme "://" Host-header target] (kvarn_async::read::request);
+      [path]: the path the CORS rules are looked up with *)
+  Definition req_check (rules : ruleset allow_list) (path : bytes) (r : request) : option grant :=
+    check_cors_request parse ipo norm (rs_get rules) (rq_method r) (Some conn_scheme) (header H_HOST r)
+                       path (header H_ORIGIN r).
+  (** [request.extensions().get::<RequestedUri>().map_or(request.uri(), ..).path()] *)
+  Definition cors_path (orig : option bytes) (r : request) : bytes :=
+    if keep_orig then match orig with Some p => p | None => rq_path r end else rq_path r.
 
   (** a Prime returns [Option<Uri>]: here path and query *)
-  Definition call_prime (p : prime_id) (r : request) : option (bytes * option bytes) :=
+  Definition call_prime (p : prime_id) (orig : option bytes) (r : request) : option (bytes * option bytes) :=
     match p with
     | P_deny =>
         let missmatch :=
@@ -311,7 +495,7 @@ Section Pipe.
           end in
         if missmatch then Some (OV_FAIL, None) else None
     | P_with_cors =>
-        match req_check (cc_rules cfg) r with Some _ => None | None => Some (OV_FAIL, None) end
+        match req_check (cc_rules cfg) (cors_path orig r) r with Some _ => None | None => Some (OV_FAIL, None) end
     | P_options =>
         if (rq_method r =? M_OPTIONS)
            && (match header H_ORIGIN r with Some _ => true | None => false end)
@@ -322,32 +506,33 @@ Section Pipe.
         if beq (rq_path r') (rq_path r) then None else Some (rq_path r', rq_query r')
     end.
 
-  (** [Extensions::resolve_prime] *)
-  Fixpoint resolve_prime (l : list (Z * prime_id)) (r : request) (uri : option bytes) : request * option bytes :=
+  (** [Extensions::resolve_prime]: the request as rewritten, the override URI, the requested path if rewritten *)
+  Fixpoint resolve_prime (l : list (Z * prime_id)) (r : request) (uri orig : option bytes) : request * option bytes * option bytes :=
     match l with
-    | [] => (r, uri)
+    | [] => (r, uri, orig)
     | (_, p) :: rest =>
-        match call_prime p r with
+        match call_prime p orig r with
         | Some (path, query) =>
-            if starts_with (B "/./") path then resolve_prime rest r (Some path)
+            if starts_with (B "/./") path then resolve_prime rest r (Some path) orig
             else resolve_prime rest (mkReq (rq_method r) path query (rq_headers r) (rq_addr r)) uri
-        | None => resolve_prime rest r uri
+                               (match orig with Some _ => orig | None => Some (rq_path r) end)
+        | None => resolve_prime rest r uri orig
         end
     end.
 
-  (** [handle_request] on a host with [disable_fs]: the Prepare bound to the override URI's path, else to
-      the request's path; [/./cors_options] is [options_prepare] with the rules of [with_cors] (or the
-      empty rule set of [with_disallow_cors]); no handler = 404. *)
+  (** [handle_request]: the Prepare bound to the override URI's path, else the application's handler for the
+      request; [/./cors_options] is [options_prepare] with the rules of [with_cors] (or the empty rule set
+      of [with_disallow_cors]); no handler = 404.  [cpath]: the path for the CORS rules. *)
   Definition options_rules : ruleset allow_list := if cc_with_cors cfg then cc_rules cfg else [].
-  Definition compute_ov (hs : unit) (r : request) (ov : option bytes) (ok : bool) : fat * unit * list bytes :=
+  Definition compute_ov (cpath : bytes) (hs : unit) (r : request) (ov : option bytes) (ok : bool) : fat * unit * list bytes :=
     if negb ok then (error_fat (if range_part_ok r then 400 else 416) SP_NONE, hs, [])
     else
       let key := match ov with Some u => u | None => rq_path r end in
       match app key r with
       | Some (f, lg) => (f, hs, lg)
       | None =>
-          if beq key OV_FAIL then (denied_fat, hs, [])
-          else if beq key OV_OPTIONS then (options_fat (req_check options_rules r), hs, [])
+          if beq key OV_FAIL then (denied_fat_sp denied_sp, hs, [])
+          else if beq key OV_OPTIONS then (options_fat_sp denied_sp (req_check options_rules cpath r), hs, [])
           else (error_fat 404 SP_FULL, hs, [])
       end.
 
@@ -360,11 +545,21 @@ Section Pipe.
   Definition key_request (r : request) (ov : option bytes) : request :=
     match ov with Some u => mkReq (rq_method r) u None (rq_headers r) (rq_addr r) | None => r end.
 
+  (** the miss arm ([Model/Cache.v]'s [miss] with the status filter as a parameter) *)
+  Definition miss_f (comp : unit -> request -> bool -> fat * unit * list bytes) (c1 : cache) (hs : unit) (now : N)
+             (r : request) (ok : bool) : state unit * reply * list bytes :=
+    let '(f, hs', lg) := comp hs r ok in
+    let lm := wants_cache_f filt (cc_cache cfg) (rq_method r) f in
+    if may_store_f filt (cc_cache cfg) (rq_method r) f then
+      let e' := {| e_vars := [(no_vary_tuple r, f)]; e_created := now; e_life := lifetime_ms f |} in
+      ((c_insert (insert_key r f) e' c1, hs'), finish no_negotiate no_vary_header r f lm false, lg)
+    else ((c1, hs'), finish no_negotiate no_vary_header r f lm false, lg).
+
   (** [handle_cache] after [resolve_prime]: [r] is the request as the primes left it, [ov] the override URI *)
-  Definition serve_core (st : state unit) (now : N) (ok : bool) (r : request) (ov : option bytes)
+  Definition serve_core (cpath : bytes) (st : state unit) (now : N) (ok : bool) (r : request) (ov : option bytes)
     : state unit * reply * list bytes :=
     let '(c, hs) := st in
-    let comp := fun hs r ok => compute_ov hs r ov ok in
+    let comp := fun hs r ok => compute_ov cpath hs r ov ok in
     if negb (cc_cache cfg) then
       let '(f, hs', lg) := comp hs r ok in
       ((c, hs'), finish no_negotiate no_vary_header r f false false, lg)
@@ -387,25 +582,26 @@ Section Pipe.
                              e_life := option_map (fun l => l - (now - e_created e)) (e_life e) |} in
                 ((c_insert k e' c1, hs'), finish no_negotiate no_vary_header r f true true, lg)
             end
-        else miss unit comp (cc_cache cfg) true no_negotiate no_vary_tuple no_vary_header c1 hs now r ok
-    | None => miss unit comp (cc_cache cfg) true no_negotiate no_vary_tuple no_vary_header c1 hs now r ok
+        else miss_f comp c1 hs now r ok
+    | None => miss_f comp c1 hs now r ok
     end.
+  Definition primed (r0 : request) : request * option bytes * option bytes := resolve_prime (prime_list cfg) r0 None None.
   Definition serve_ov (st : state unit) (now : N) (r0 : request) : state unit * reply * list bytes :=
-    let '(r, ov) := resolve_prime (prime_list cfg) r0 None in
-    serve_core st now (sanitize_ok_fix r0) r ov.
+    let '(r, ov, orig) := primed r0 in
+    serve_core (cors_path orig r) st now (sanitize_ok_pct r0) r ov.
 
   (** ---- the Package of [with_cors] (priority -1024), applied by [SendKind::send] to every response,
       cached or not, with the request as the primes left it ---- *)
   Fixpoint set_header (n v : bytes) (hs : list (bytes * bytes)) : list (bytes * bytes) :=
     match hs with
     | [] => [(n, v)]
-    | (k, w) :: r => if beq k n then (n, v) :: r else (k, w) :: set_header n v r
+    | (k, w) :: r => if beq k n then (n, v) :: filter (fun h => negb (beq (fst h) n)) r else (k, w) :: set_header n v r
     end.
-  Definition cors_package (r : request) (hs : list (bytes * bytes)) : list (bytes * bytes) :=
+  Definition cors_package (cpath : bytes) (r : request) (hs : list (bytes * bytes)) : list (bytes * bytes) :=
     if cc_with_cors cfg then
       match header H_ORIGIN r with
       | Some origin =>
-          match req_check (cc_rules cfg) r with
+          match req_check (cc_rules cfg) cpath r with
           | Some _ => set_header H_ACAO origin hs
           | None => hs
           end
@@ -417,16 +613,21 @@ Section Pipe.
   Record wire := mkWire { w_status : N; w_headers : list (bytes * bytes); w_body : bytes; w_log : list bytes }.
   Definition respond (st : state unit) (now : N) (r0 : request) : state unit * wire :=
     let '(st', rp, lg) := serve_ov st now r0 in
-    let r := fst (resolve_prime (prime_list cfg) r0 None) in
-    (st', mkWire (rp_status rp) (cors_package r (rp_headers rp))
+    let '(r, _, orig) := primed r0 in
+    (st', mkWire (rp_status rp) (cors_package (cors_path orig r) r (rp_headers rp))
                  (if rq_method r0 =? M_HEAD then [] else rp_body rp) lg).
+  (** the reply was computed now (a miss), not taken from the cache: the Present extensions ran *)
+  Definition computed_now (st : state unit) (now : N) (r0 : request) : bool :=
+    negb (rp_from_cache (snd (fst (serve_ov st now r0)))).
 
   Inductive cop := CReq (r : request) | CClear.
-  Fixpoint run_conn (st : state unit) (now : N) (ops : list cop) : list (option wire) :=
+  Fixpoint run_conn (marks : bool) (st : state unit) (now : N) (ops : list cop) : list (option (wire * list bytes)) :=
     match ops with
     | [] => []
-    | CReq r :: rest => let '(st', w) := respond st now r in Some w :: run_conn st' now rest
-    | CClear :: rest => None :: run_conn ([], snd st) now rest
+    | CReq r :: rest =>
+        let '(st', w) := respond st now r in
+        Some (w, if marks then (if computed_now st now r then [B "P"] else []) ++ [B "T"] else []) :: run_conn marks st' now rest
+    | CClear :: rest => None :: run_conn marks ([], snd st) now rest
     end.
   Fixpoint run_conn_state (st : state unit) (now : N) (ops : list (cop * N)) : state unit :=
     match ops with
@@ -438,13 +639,14 @@ Section Pipe.
   (** ---- vocabulary of the theorems ---- *)
   (** the rules in force: those of [with_cors], none under the default [with_disallow_cors] *)
   Definition effective_rules : ruleset allow_list := if cc_with_cors cfg then cc_rules cfg else [].
-  (** the property's verdict on a request (decision function [cors_spec], rule found by [RuleSet::get]) *)
+  (** the property's verdict on a request (decision function [cors_spec2], rule found by [RuleSet::get]) *)
   Definition req_verdict (r : request) : verdict :=
-    cors_spec parse (rs_get effective_rules) (rq_method r) conn_scheme
-              (match header H_HOST r with Some a => a | None => [] end) (rq_path r) (header H_ORIGIN r).
+    cors_spec2 norm parse (rs_get effective_rules) (rq_method r) conn_scheme
+               (match header H_HOST r with Some a => a | None => [] end) (rq_path r) (header H_ORIGIN r).
   (** the request as the non-CORS primes leave it ([uri_redirect] of [Extensions::new()]) *)
   Definition rw (r : request) : request := if cc_new cfg then uri_redirect r else r.
-  (** complement of the known class [acao_path_rewrite]: the rewritten path has the same rule *)
+  (** before the repair (no [RequestedUri]): the complement of the class acao_path_rewrite — the rewritten path
+      has the same rule *)
   Definition stable (r : request) : Prop :=
     rs_get effective_rules (rq_path (rw r)) = rs_get effective_rules (rq_path r).
   (** cache keys of internal routes: never stored by any history (invariant [no_internal]) *)
@@ -454,6 +656,9 @@ Section Pipe.
 End Pipe.
 (** no application handler is mounted on an internal route *)
 Definition app_external (app : app_handlers) : Prop := forall key r, starts_with (B "/./") key = true -> app key r = None.
+(** the default [status_code_cache_filter] *)
+Definition default_filter : N -> bool := status_filter_drop.
+Definition cache_all_filter : N -> bool := fun _ => false.
 
 (** ---- xval interface ---- *)
 Definition d_method (x : xval) : option N := match x with XB m => cors_method_of_bytes m | _ => None end.
@@ -505,7 +710,7 @@ Definition d_probe (x : xval) : option (N * bytes * bytes * bytes * option bytes
       end
   | _ => None
   end.
-Definition run_check_with (ipo : bytes -> option bytes -> option bytes -> bool) (x : xval) : xval :=
+Definition run_check_with (ipo : bytes -> option bytes -> option bytes -> bool) (norm : bytes -> bytes) (x : xval) : xval :=
   match x with
   | XL [rules; probes] =>
       match d_list d_rule rules, d_list d_probe probes with
@@ -514,15 +719,16 @@ Definition run_check_with (ipo : bytes -> option bytes -> option bytes -> bool) 
           | Ok hist =>
               let rules := rs_build rs_add hist in
               XL [XN 0; XL (map (fun '(m, s, a, p, o) =>
-                     x_option x_grant (check_cors_request parse_uri ipo (rs_get rules) m (Some s) (Some a) p o)) ps)]
+                     x_option x_grant (check_cors_request parse_uri ipo norm (rs_get rules) m (Some s) (Some a) p o)) ps)]
           | _ => XL [XN 96]
           end
       | _, _ => bad_input
       end
   | _ => bad_input
   end.
-Definition run_check := run_check_with is_part_of_origin.
-Definition run_check_v0 := run_check_with is_part_of_origin_v0.
+Definition run_check := run_check_with is_part_of_origin resolved_path.
+Definition run_check_v0 := run_check_with is_part_of_origin_v0 resolved_path.
+Definition run_check_v1 := run_check_with is_part_of_origin resolved_path_v0.
 
 Definition x_verdict (v : verdict) : xval :=
   match v with VSame => XL [XN 0] | VAllow g => XL [XN 1; x_grant g] | VRefuse => XL [XN 2] end.
@@ -534,7 +740,7 @@ Definition run_check_spec (x : xval) : xval :=
       | Some rs, Some ps =>
           match build_hist parse_uri rs with
           | Ok hist =>
-              XL [XN 0; XL (map (fun '(m, s, a, p, o) => x_verdict (cors_spec parse_uri (resolve hist) m s a p o)) ps)]
+              XL [XN 0; XL (map (fun '(m, s, a, p, o) => x_verdict (cors_spec2 resolved_path parse_uri (resolve hist) m s a p o)) ps)]
           | _ => XL [XN 96]
           end
       | _, _ => bad_input
@@ -542,9 +748,20 @@ Definition run_check_spec (x : xval) : xval :=
   | _ => bad_input
   end.
 
-(** "cors.conn": (L (L base with_cors rules handlers cache) ops) *)
+(** "cors.conn": (L (L base with_cors rules handlers cache [site]) ops), site = (L files fns flags) *)
 Definition d_handler (x : xval) : option (bytes * N) :=
   match x with XL [XB p; XN sp] => Some (p, sp) | _ => None end.
+Definition d_file (x : xval) : option (bytes * bytes) :=
+  match x with XL [XB p; XB c] => Some (p, c) | _ => None end.
+Definition d_site (x : xval) : option site :=
+  match x with
+  | XL [files; fns; XN fl] =>
+      match d_list d_file files, d_list d_handler fns with
+      | Some fs, Some fn => Some (mkSite fs fn fl)
+      | _, _ => None
+      end
+  | _ => None
+  end.
 Definition d_hdr (x : xval) : option (bytes * bytes) :=
   match x with XL [XB a; XB c] => Some (a, c) | _ => None end.
 (** the request as kvarn's HTTP/1 reader hands it on: [parse::headers] does [headers.insert(name, value)],
@@ -562,35 +779,61 @@ Definition d_cop (x : xval) : option cop :=
   | _ => None
   end.
 Definition REPORT : list bytes := [H_ACAO; H_ACAM; H_ACAH; H_ACMA].
-Definition x_wire (w : option wire) : xval :=
+Definition x_wire (w : option (wire * list bytes)) : xval :=
   match w with
   | None => XL []
-  | Some w =>
+  | Some (w, marks) =>
       XL [XN (w_status w);
           XL (concat (map (fun n => match assoc n (w_headers w) with Some v => [XL [XB n; XB v]] | None => [] end) REPORT));
-          XB (w_body w); XL (map XB (w_log w))]
+          XB (w_body w); XL (map XB (w_log w ++ marks))]
   end.
 Definition CONN_SCHEME := B "http".
-Definition run_conn_with (ipo : bytes -> option bytes -> option bytes -> bool) (force_nocache : bool) (x : xval) : xval :=
+(** the versions of the code: the current one, and each repaired defect undone *)
+Record version := mkVer { v_ipo : bytes -> option bytes -> option bytes -> bool; v_norm : bytes -> bytes; v_keep : bool; v_denied : N }.
+Definition V_NOW := mkVer is_part_of_origin resolved_path true SP_NONE.
+Definition V_NULL0 := mkVer is_part_of_origin_v0 resolved_path true SP_NONE.       (* before c64bc9b *)
+Definition V_RAW0 := mkVer is_part_of_origin resolved_path_v0 true SP_NONE.        (* rule looked up with the raw path only *)
+Definition V_REWRITE0 := mkVer is_part_of_origin resolved_path false SP_NONE.      (* no RequestedUri *)
+Definition V_DENIED0 := mkVer is_part_of_origin resolved_path true SP_FULL.        (* the refusal with preference Full *)
+Definition d_cfg (x : xval) : option (N * bool * list rule_spec * list (bytes * N) * bool * option site) :=
   match x with
-  | XL [XL [XN base; wc; rules; handlers; ca]; XL ops] =>
-      match d_bool wc, d_list d_rule rules, d_list d_handler handlers, d_bool ca, d_all d_cop ops with
-      | Some wc', Some rs, Some hs, Some ca', Some ops' =>
+  | XL (XN base :: wc :: rules :: handlers :: ca :: rest) =>
+      match d_bool wc, d_list d_rule rules, d_list d_handler handlers, d_bool ca with
+      | Some wc', Some rs, Some hs, Some ca' =>
+          match rest with
+          | [] => Some (base, wc', rs, hs, ca', None)
+          | [st] => match d_site st with Some st' => Some (base, wc', rs, hs, ca', Some st') | None => None end
+          | _ => None
+          end
+      | _, _, _, _ => None
+      end
+  | _ => None
+  end.
+Definition site_filter (s : option site) : N -> bool := if site_filter_all s then cache_all_filter else default_filter.
+Definition run_conn_with (v : version) (force_nocache : bool) (x : xval) : xval :=
+  match x with
+  | XL [c; XL ops] =>
+      match d_cfg c, d_all d_cop ops with
+      | Some (base, wc', rs, hs, ca', st), Some ops' =>
           match build_hist parse_uri rs with
           | Ok hist =>
               let cfg := mkCfgC (base =? 0) wc' (rs_build rs_add hist) hs (ca' && negb force_nocache) in
-              XL [XN 0; XL (map x_wire (run_conn parse_uri ipo CONN_SCHEME cfg (marker_app hs) ([], tt) 0 ops'))]
+              XL [XN 0; XL (map x_wire (run_conn parse_uri (v_ipo v) (v_norm v) (v_keep v) (v_denied v) (site_filter st) (site_scheme st) cfg
+                                                 (site_app hs st) (site_marks st) ([], tt) 0 ops'))]
           | _ => XL [XN 96]
           end
-      | _, _, _, _, _ => bad_input
+      | _, _ => bad_input
       end
   | _ => bad_input
   end.
-Definition run_conn_x := run_conn_with is_part_of_origin false.
-Definition run_conn_v0 := run_conn_with is_part_of_origin_v0 false.
-Definition run_conn_nocache := run_conn_with is_part_of_origin true.
+Definition run_conn_x := run_conn_with V_NOW false.
+Definition run_conn_v0 := run_conn_with V_NULL0 false.
+Definition run_conn_raw0 := run_conn_with V_RAW0 false.
+Definition run_conn_rewrite0 := run_conn_with V_REWRITE0 false.
+Definition run_conn_denied0 := run_conn_with V_DENIED0 false.
+Definition run_conn_nocache := run_conn_with V_NOW true.
 
-(** the property as an oracle on a history: per request the verdict of [cors_spec] (rule by [resolve])
+(** the property as an oracle on a history: per request the verdict of [cors_spec2] (rule by [resolve])
     and what the property then prescribes about the reply, computed from the reply of the same request
     *without* its Origin on a cache-less server with the same handlers ([None] = nothing prescribed). *)
 Definition strip_origin (r : request) : request :=
@@ -608,16 +851,21 @@ Definition hist_lookup (cfg : ccfg) (hist : list (bytes * allow_list)) (p : byte
   if cc_with_cors cfg then resolve hist p else None.
 Definition is_preflight (r : request) : bool :=
   (rq_method r =? M_OPTIONS) && (match header H_ACRM r with Some _ => true | None => false end).
-Definition spec_one (hist : list (bytes * allow_list)) (with_cors : bool) (cfg : ccfg) (r : request) : xval :=
+Definition spec_one (hist : list (bytes * allow_list)) (with_cors : bool) (cfg : ccfg) (st : option site) (r : request) : xval :=
   let lookup := if with_cors then resolve hist else (fun _ => None) in
   let auth := match header H_HOST r with Some a => a | None => [] end in
-  let v := cors_spec parse_uri lookup (rq_method r) CONN_SCHEME auth (rq_path r) (header H_ORIGIN r) in
-  let plain := snd (respond parse_uri is_part_of_origin CONN_SCHEME
+  let v := cors_spec2 resolved_path parse_uri lookup (rq_method r) (site_scheme st) auth (rq_path r) (header H_ORIGIN r) in
+  let plain := snd (respond parse_uri is_part_of_origin resolved_path true SP_NONE default_filter (site_scheme st)
                       (mkCfgC (cc_new cfg) (cc_with_cors cfg) (cc_rules cfg) (cc_handlers cfg) false)
-                      (marker_app (cc_handlers cfg)) ([], tt) 0 (strip_origin r)) in
+                      (site_app (cc_handlers cfg) st) ([], tt) 0 (strip_origin r)) in
   let acao := match header H_ORIGIN r with Some o => if with_cors then [XL [XB H_ACAO; XB o]] else [] | None => [] end in
+  (* without an Origin (or without with_cors) the Package adds nothing: a handler's own header stays *)
+  let own := match header H_ORIGIN r with
+             | Some _ => if with_cors then [] else match assoc H_ACAO (w_headers plain) with Some v => [XL [XB H_ACAO; XB v]] | None => [] end
+             | None => match assoc H_ACAO (w_headers plain) with Some v => [XL [XB H_ACAO; XB v]] | None => [] end
+             end in
   let head := rq_method r =? M_HEAD in
-  if negb (sanitize_ok_fix r) then
+  if negb (sanitize_ok_pct r) then
     (* the request does not pass [sanitize_request] (C01's domain): only "a refused origin gets no
        access-control-allow-origin and no handler" is prescribed *)
     XL [XN 3; XN (match v with VRefuse => 2 | VAllow _ => 1 | VSame => 0 end)]
@@ -628,29 +876,29 @@ Definition spec_one (hist : list (bytes * allow_list)) (with_cors : bool) (cfg :
       if is_preflight r && with_cors then
         XL [XN 1; XN 204; XL (acao ++ [XL [XB H_ACAM; XB (methods_bytes ms)]; XL [XB H_ACAH; XB (join_comma hs)];
                                        XL [XB H_ACMA; XB (dec (max_age_secs t))]]); XB []]
-      else XL [XN 1; XN (w_status plain); XL acao; XB (w_body plain)]
+      else XL [XN 1; XN (w_status plain); XL (acao ++ own); XB (w_body plain)]
   | VSame =>
       if is_preflight r && (match header H_ORIGIN r with Some _ => true | None => false end) then
         XL [XN 0; XN 204; XL (acao ++ [XL [XB H_ACAM; XB (B "*")]; XL [XB H_ACAH; XB []]; XL [XB H_ACMA; XB (B "604800")]]); XB []]
-      else XL [XN 0; XN (w_status plain); XL acao; XB (w_body plain)]
+      else XL [XN 0; XN (w_status plain); XL (acao ++ own); XB (w_body plain)]
   end.
 Definition run_conn_spec (x : xval) : xval :=
   match x with
-  | XL [XL [XN base; wc; rules; handlers; ca]; XL ops] =>
-      match d_bool wc, d_list d_rule rules, d_list d_handler handlers, d_bool ca, d_all d_cop ops with
-      | Some wc', Some rs, Some hs, Some ca', Some ops' =>
+  | XL [c; XL ops] =>
+      match d_cfg c, d_all d_cop ops with
+      | Some (base, wc', rs, hs, ca', st), Some ops' =>
           match build_hist parse_uri rs with
           | Ok hist =>
               let cfg := mkCfgC (base =? 0) wc' (rs_build rs_add hist) hs false in
-              XL [XN 0; XL (map (fun o => match o with CReq r => spec_one hist wc' cfg r | CClear => XL [] end) ops')]
+              XL [XN 0; XL (map (fun o => match o with CReq r => spec_one hist wc' cfg st r | CClear => XL [] end) ops')]
           | _ => XL [XN 96]
           end
-      | _, _, _, _, _ => bad_input
+      | _, _ => bad_input
       end
   | _ => bad_input
   end.
 
-(** "cors.parse": the stand-in parser itself, compared with [Uri::try_from] on the grammar *)
+(** "cors.parse": the parser transcription itself, compared with [Uri::try_from] *)
 Definition run_parse (x : xval) : xval :=
   match d_list d_B x with
   | Some l => XL (map (fun b => match parse_uri b with
@@ -660,7 +908,12 @@ Definition run_parse (x : xval) : xval :=
   | None => bad_input
   end.
 
+(** "cors.resolved": [Cors::resolved_path] through [check_cors_request] is private; the model's version is
+    compared through "cors.check" with percent-encoded and double-slash paths *)
+
 Definition cors_table : list (bytes * (xval -> xval)) :=
-  [ (B "cors.parse", run_parse); (B "cors.check", run_check); (B "cors.check_v0", run_check_v0); (B "cors.check_spec", run_check_spec);
-    (B "cors.conn", run_conn_x); (B "cors.conn_v0", run_conn_v0); (B "cors.conn_nocache", run_conn_nocache);
-    (B "cors.conn_spec", run_conn_spec) ].
+  [ (B "cors.parse", run_parse); (B "cors.check", run_check); (B "cors.check_v0", run_check_v0); (B "cors.check_v1", run_check_v1);
+    (B "cors.check_spec", run_check_spec);
+    (B "cors.conn", run_conn_x); (B "cors.conn_v0", run_conn_v0); (B "cors.conn_raw0", run_conn_raw0);
+    (B "cors.conn_rewrite0", run_conn_rewrite0); (B "cors.conn_denied0", run_conn_denied0);
+    (B "cors.conn_nocache", run_conn_nocache); (B "cors.conn_spec", run_conn_spec) ].
